@@ -336,7 +336,7 @@ mut('c15-fan-swapped', ['C15'], 'fan_in computed from shape[0]', [(IN, "    num_
 mut('c15-fan-no-receptive-field', ['C15'], 'receptive field of conv kernels ignored in fan_out', [(IN, "fan_out = num_output_fmaps * receptive_field_size", "fan_out = num_output_fmaps")], rules=['C15.FAN'])
 mut('c15-gain-tanh', ['C15'], 'tanh gain 5/4', [(IN, "return 5.0 / 3", "return 5.0 / 4")], rules=['C15.GAIN'])
 mut('c15-gain-leaky-no-square', ['C15'], 'leaky_relu gain without squaring the slope', [(IN, "math.sqrt(2.0 / (1 + negative_slope ** 2))", "math.sqrt(2.0 / (1 + negative_slope))")], rules=['C15.GAIN'])
-mut('c15-kaiming-mode-swapped', ['C15'], 'kaiming_normal_ maps fan_in to index 1', [(IN, "    fans_str = ['fan_in', 'fan_out']\n    if mode in fans_str:\n        mode = fans_str.index(mode)\n    else:\n        raise ValueError(f\"invalid {mode=} for kaiming normal\")", "    fans_str = ['fan_out', 'fan_in']\n    if mode in fans_str:\n        mode = fans_str.index(mode)\n    else:\n        raise ValueError(f\"invalid {mode=} for kaiming normal\")")], rules=['C15.GAIN'])
+mut('c15-kaiming-mode-swapped', ['C15'], 'kaiming_normal_ maps fan_in to index 1', [(IN, "    fans_str = ['fan_in', 'fan_out']\n    if mode in fans_str:\n        mode = fans_str.index(mode)\n    else:\n        raise ValueError(f\"invalid {mode=} for kaiming normal\")", "    fans_str = ['fan_out', 'fan_in']\n    if mode in fans_str:\n        mode = fans_str.index(mode)\n    else:\n        raise ValueError(f\"invalid {mode=} for kaiming normal\")")], rules=['C15.GAIN', 'C15.SCALE'])
 mut('c15-filler-drops-dtype', ['C15'], 'zeros_ replaces data by a float64 array', [(IN, "tensor.data = np.zeros(tensor.shape).astype(tensor.dtype)", "tensor.data = np.zeros(tensor.shape)")], rules=['C15.OBJECT'])
 mut('c15-filler-new-tensor', ['C15'], 'constant_ returns a new Tensor instead of filling its argument', [(IN, "    tensor.data = np.full(tensor.shape, val).astype(tensor.dtype)\n    return tensor", "    return Tensor(np.full(tensor.shape, val).astype(tensor.dtype))")], rules=['C15.OBJECT'])
 mut('c15-filler-clears-flag', ['C15'], 'uniform_ also resets requires_grad', [(IN, "    tensor.data = np.random.uniform(a, b, tensor.shape).astype(tensor.dtype)\n    return tensor\n    return np", "    tensor.data = np.random.uniform(a, b, tensor.shape).astype(tensor.dtype)\n    tensor._requires_grad = False\n    return tensor\n    return np")], rules=['C15.OBJECT'])
